@@ -138,7 +138,7 @@ def gen_svc_case(rng, big=False):
         recs.append(["p", ty, "Inst%d.%s" % (i, T if ty != T2 else T2), ttl, now - age])
     # noise: same name other type/class
     noise = rng.random() < 0.5
-    types = rng.choice([[T], [T], [T, T2], [T2, T]])
+    types = rng.choice([[T], [T], [T, T2], [T2, T], [T], [T], [T, T2], [T2, T], [T, T.upper()], [T.upper(), T, T2]])   # two spellings = one question
     qtype = rng.choice([None, None, "QU", "QM"])
     multicast = rng.random() < 0.8
     # earlier askers, oldest first: `gap` = ms before `now`.  Two or more of them with gaps around 999/1000 ms and identical
@@ -172,7 +172,9 @@ def run_svc(case, res):
 
     prevs = case.get("prevs") or ([case["prev"]] if case.get("prev") else [])
     extra = ptr(T, "Extra." + T, 4500, now - 10)
-    types = sorted(case["types"])
+    tset = set(case["types"])
+    types = list(tset)        # the order in which `for type_ in types_` walks this very set object
+    keys = list(dict.fromkeys(t.lower() for t in case["types"]))     # the distinct questions
     pairs = []
 
     def base_of(mode):
@@ -196,12 +198,12 @@ def run_svc(case, res):
         z.cache.async_add_records(base)
         pre_hist, pre_cache = hist_tokens(z.question_history), cache_tokens(z.cache)
         qu_ = (not case["multicast"]) if qtype is None else qtype == "QU"
-        outs_ = B.generate_service_query(z, float(t), set(case["types"]), case["multicast"], qmap[qtype])
+        outs_ = B.generate_service_query(z, float(t), tset, case["multicast"], qmap[qtype])
         pairs.append(("c13svc %d %s %s %s %d %s" % (t, C.b01(qu_), pre_cache, pre_hist, len(types), " ".join(C.hs(x) for x in types)),
                       "%s || %s" % (outs_str(outs_, float(t)), hist_str(z.question_history))))
         sent = {q.name.lower() for o_ in outs_ for q in o_.questions}
         expect = {}
-        for ty in case["types"]:
+        for ty in keys:
             known = known_ids(base, ty, t)
             sights = list(spec.get(ty.lower(), []))
             # the sentence: SOME sighting within the previous 999 ms had a list we fully know
@@ -235,11 +237,11 @@ def run_svc(case, res):
         then = now - pv["gap"]
         if pv["mode"].startswith("responder"):
             # heard on the link as an authoritative responder: recorded with the querier's known answers
-            for ty in case["types"]:
+            for ty in keys:
                 known = {r for r in recs if isinstance(r, type(extra)) and r.name.lower() == ty.lower() and r.type == const._TYPE_PTR
                          and r.class_ == const._CLASS_IN and not r.is_stale(then)}
                 ids_ = known_ids(recs, ty, then)
-                if pv["mode"] == "responder-more" and ty == T:
+                if pv["mode"] == "responder-more" and ty == T.lower():
                     known.add(extra)
                     ids_ = ids_ | {(T, extra.alias.lower())}
                 if pv["qtype"] != "QU":
@@ -271,15 +273,15 @@ def run_svc(case, res):
                 bad.append(("C13:packet-size", "query packet of %d bytes" % len(p)))
         for m in msgs:
             for q in m.questions:
-                if q.name in asked:
+                if q.name.lower() in asked:
                     bad.append(("C13:question-twice", "question %s appears twice" % q.name))
-                asked.setdefault(q.name, {"qu": q.unique, "ka": []})
+                asked.setdefault(q.name.lower(), {"qu": q.unique, "ka": []})
             for a in m.answers():
                 for name in list(asked):
-                    if a.name.lower() == name.lower():
+                    if a.name.lower() == name:
                         asked[name]["ka"].append((a.alias, a.ttl))
     bad += early
-    for ty in case["types"]:
+    for ty in keys:
         want = sorted((r.alias, int((r.created + 1000 * r.ttl - now) // 1000)) for r in cached
                       if r.name.lower() == ty.lower() and r.type == const._TYPE_PTR and r.class_ == const._CLASS_IN and now < r.created + 500 * r.ttl)
         got = asked.get(ty)
